@@ -29,9 +29,18 @@ const (
 	envKeep   = "C13_KEEP" // debugging only: keep the scratch directory
 )
 
-func repeats(tier string) int {
-	if tier == "thorough" {
+// repeats: number of passes over one unit. Units whose output can depend on an ORDER the
+// generator collects things in (gombok packages with >= 2 source files: go/packages parses
+// them concurrently; extra packages with competing @fp.ImportGiven packages or several
+// source files) are cheap (one gombok run each) and get more process starts.
+func repeats(tier string, orderSensitive bool) int {
+	switch {
+	case tier == "thorough" && orderSensitive:
+		return 24
+	case tier == "thorough":
 		return 12
+	case orderSensitive:
+		return 8
 	}
 	return 2
 }
@@ -55,14 +64,14 @@ func main() {
 		Cases: func(tier string, b int) int {
 			switch {
 			case b < nG:
-				return repeats(tier)
+				return repeats(tier, sh.Plan.Groups[b].OrderSensitive())
 			case b == nG:
 				if tier == "thorough" {
 					return 2
 				}
 				return 1
 			default:
-				return repeats(tier)
+				return repeats(tier, extraSpecs(tier)[b-nG-1].OrderSensitive)
 			}
 		},
 		Run: func(w *vrt.W) {
@@ -81,10 +90,11 @@ func main() {
 		Parallel:    0,
 		WorkerProcs: 4,
 		WallLimit:   20 * time.Minute,
-		Rule: "case = one pass of the prebuilt generators (gombok, template_gen, monad_gen, built with -trimpath from a snapshot of the working tree) over one unit, executed in a private copy of the snapshot with GOPACKAGE/GOFILE/GOLINE/PWD set as `go generate` does and GOMAXPROCS rotating over {1,2,16} (start of the rotation drawn from the case PRNG). " +
+		Rule: "case = one pass of the prebuilt generators (gombok, template_gen, monad_gen, built with -trimpath from a snapshot of the working tree) over one unit, executed in a private copy of the snapshot with GOPACKAGE/GOFILE/GOLINE/PWD set as `go generate` does and GOMAXPROCS rotating over {1,2,4,16} (start of the rotation drawn from the case PRNG). Every pass after the first is compared with pass 0 (so all passes are pairwise equal when nothing is reported). " +
 			"Units: (a) every directory of the repository that carries //go:generate directives (its directives run in go-generate order): pass 0 on the pristine copy with every file's mtime set to the epoch = FIXPOINT (whole scratch tree byte-identical to the snapshot afterwards) + ORPHANS (every file of that directory with a `// Code generated … DO NOT EDIT.` header before its package clause was rewritten; if not, all other directives are run before it is called an orphan); pass 1 on top of the regenerated tree = IDEMPOTENCE; passes 2..R-1 on a restored pristine copy = DETERMINISM (whole tree byte-identical to pass 0's result); " +
 			"(b) one global unit: generated-header files in directories without directive (orphans), directives whose command is not one of the three generators (reported as skipped), and in the thorough tier a literal serial `go generate ./...`-ordered double pass over ONE scratch tree; " +
-			"(c) extra gombok input packages synthesised from the case PRNG (wide @fp.Value/@fp.Json/@fp.GenLabelled structs with 10-40 tagged fields and @fp.Derive of eq/show/js.Encoder/js.Decoder/read/hash inside the repository copy; a fixed shop package with eq/ord/hash/show/clone/monoid derives, @fp.Generate template and adaptor in an external module with a replace directive): pass 0 from the clean input, odd passes on top of the generated files, even passes from the clean input again, all byte-identical to pass 0. " +
+			"(c) extra gombok input packages synthesised from the case PRNG inside the repository copy: wide @fp.Value/@fp.Json/@fp.GenLabelled structs with 10-40 tagged fields and @fp.Derive of eq/show/js.Encoder/js.Decoder/read/hash; a fixed shop package (external module with a replace directive) with eq/ord/hash/show/clone/monoid derives, @fp.Generate template and adaptor; GIVEN units: 2-4 instance packages that all offer applicable instances for the same type class and type (EqDuration/EqMonth/OrdDuration/OrdMonth/ShowDuration/ShowMonth by name, fp.Eq/fp.Show[time.Weekday] only by type, vars and funcs), imported through permuted @fp.ImportGiven directives spread over 2-3 source files, two units with instance packages that share one package name (import alias numbering); MULTI units: 3-5 source files with 6-10 tagged structs (@fp.Value/@fp.Getter/@fp.With/@fp.String/@fp.Builder/@fp.AllArgsConstructor/@fp.GenLabelled/@fp.Json, struct names in an order contradicting the file names, many struct tags), generic structs instantiated several times, field types from two packages both called `shape` and one called `option`, 30-40 @fp.Derive directives spread over the files (also for types of other files, two recursive=true ones that derive the same instances on demand), three @fp.Generate templates in different files two of which write one output file. Pass 0 from the clean input, odd passes on top of the generated files, even passes from the clean input again, all byte-identical to pass 0. " +
+			"Repeats R: 2 (thorough 12) per unit; 8 (thorough 24) for ORDER-SENSITIVE units = gombok directories of the repository with >= 2 hand-written source files (go/packages parses the files of a package concurrently) and the GIVEN/MULTI units. " +
 			"distinct_nontrivial counts distinct directives (repository directives by dir/file/line, extra packages by name) that wrote at least one file in some pass.",
 		Assumptions: []string{
 			"the generators are run as prebuilt binaries (basename = generator name) instead of `go run`; go generate's $GOARCH/$GOOS/$GOFILE/$GOLINE/$GOPACKAGE/$DOLLAR/$PWD are reproduced, the `go` tool on PATH is the same",
@@ -94,7 +104,14 @@ func main() {
 			"map-iteration order is re-randomised per process start; R runs sample it, they do not enumerate it",
 		},
 		Floors: func(tier string) map[string]int64 {
-			return map[string]int64{"generator_runs": 1, "files_compared": 1, "orphan_checks": 1, "directives_with_output": 1}
+			f := map[string]int64{"generator_runs": 1, "files_compared": 1, "orphan_checks": 1, "directives_with_output": 1,
+				// the order-sensitive inputs really ran, produced output and were repeated
+				"extra_units_with_output.given": 4, "extra_units_with_output.multi": 3, "extra_units_with_output.wide": 4, "extra_units_with_output.shop": 1,
+				"import_given.contested_instance_resolved_to_one_package": 12,
+				"order_sensitive.repeated_runs":                           7 * int64(repeats(tier, true)-1),
+				"order_sensitive.repository_directories":                  1,
+				"runs_gomaxprocs_1":                                       10, "runs_gomaxprocs_2": 10, "runs_gomaxprocs_4": 10, "runs_gomaxprocs_16": 10}
+			return f
 		},
 		Finish: func(tier string, m *vrt.Merged, cov map[string]any) {
 			p := sh.Plan
@@ -117,7 +134,20 @@ func main() {
 			cov["setup_s"] = p.SetupSeconds
 			cov["programs"] = len(m.Distinct)
 			cov["disagreements_checked"] = m.Counters["files_compared"]
-			cov["repeats_per_unit"] = repeats(tier)
+			cov["repeats_per_unit"] = repeats(tier, false)
+			cov["repeats_per_order_sensitive_unit"] = repeats(tier, true)
+			os8 := []string{}
+			for _, g := range p.Groups {
+				if g.OrderSensitive() {
+					os8 = append(os8, fmt.Sprintf("%s (%d source files)", g.Dir, g.Sources))
+				}
+			}
+			for _, e := range extraSpecs(tier) {
+				if e.OrderSensitive {
+					os8 = append(os8, "extra/"+e.Name)
+				}
+			}
+			cov["order_sensitive_units"] = os8
 			ex := []string{}
 			for _, e := range extraSpecs(tier) {
 				ex = append(ex, e.Name)
